@@ -49,6 +49,18 @@ class _Twin(ast.NodeTransformer):
         )
 
     @staticmethod
+    def target_leaves(t):
+        """Leaf targets (names, attributes, subscripts) in binding order."""
+        if isinstance(t, (ast.Tuple, ast.List)):
+            out = []
+            for e in t.elts:
+                out += _Twin.target_leaves(e)
+            return out
+        if isinstance(t, ast.Starred):
+            return _Twin.target_leaves(t.value)
+        return [t]
+
+    @staticmethod
     def target_names(t):
         """Names bound by a target, in binding order (own scope only)."""
         if isinstance(t, ast.Name):
@@ -182,8 +194,15 @@ class _Twin(ast.NodeTransformer):
             return [prev, pre, new]
         form = "chain" if len(node.targets) > 1 else ("assign" if isinstance(node.targets[0], ast.Name) else "unpack")
         for t in node.targets:
-            for nm in self.target_names(t):
-                post.append(self.rebind(nm, form, node))
+            for leaf in self.target_leaves(t):
+                if isinstance(leaf, ast.Name):
+                    post.append(self.rebind(leaf.id, form, node))
+                elif isinstance(leaf, ast.Attribute) and isinstance(leaf.value, ast.Name):
+                    # an attribute store inside a tuple / chained target: reported (and substituted) like a plain one
+                    nm = f"{leaf.value.id}.{leaf.attr}"
+                    load = ast.Attribute(value=ast.Name(id=leaf.value.id, ctx=ast.Load()), attr=leaf.attr, ctx=ast.Load())
+                    store = ast.Attribute(value=ast.Name(id=leaf.value.id, ctx=ast.Load()), attr=leaf.attr, ctx=ast.Store())
+                    post.append(ast.Assign(targets=[store], value=self.site(nm, "attr", load, node), lineno=0))
         return [node] + post
 
     def visit_AugAssign(self, node):
